@@ -147,7 +147,8 @@ def get_node_parser(it, self, args, kwargs):
     if it.ctx.choose(2, 'spec provides a parser') == 1:
         return None
     return AbsVal(it.ctx.fresh_int('call_parser'), 'parser',
-                  attrs={'span_start': it.getattr(tok, 'pos'), 'kind': 'call_parser', 'token': tok, 'spec': self})
+                  attrs={'span_start': it.getattr(tok, 'pos'), 'kind': 'call_parser', 'token': tok, 'spec': self,
+                         'may_eos': False})
 
 
 SPEC_METHODS = {'get_node_parser': get_node_parser}
